@@ -211,6 +211,11 @@ func checkC17(c *Check) {
 	}
 	c.Floor("stores to the line field", 1, nst)
 	_ = rx
+	// the message the patterns see is the delivered one (not cut or
+	// re-spaced on the way from the pipe), and no line is skipped before
+	// the dispatcher
+	spacingRule(c)
+	c.Floor("functions between the ingester callback and the dispatcher", 2, lineReachesDispatcher(c))
 }
 
 // usesRegex: fn calls FindStringSubmatch on the regex variable.
